@@ -115,6 +115,38 @@ def _mentions(txt, k):
     return False
 
 
+def _member_untouched_by_calls(ctx, u, f, loop, member, keys):
+    """No call made from the loop can write the data member `member` of *this: the loop calls no non-const member
+    function on this, and the lambdas it calls neither write the member nor call such functions."""
+    from ..expr import _member_fn_type, _is_const_method
+    mk = keys.key(member)
+    seen = set()
+
+    def scan(root, depth=0):
+        for y in walk(root):
+            if y.get('kind') == 'CXXMemberCallExpr' and callee(y) and callee(y)[0] == 'method' and callee(y)[2] is not None and \
+                    peel(callee(y)[2], explicit=False).get('kind') == 'CXXThisExpr':
+                if not _is_const_method(_member_fn_type(y, peel(kids(y)[0], explicit=False))):
+                    return False
+            if y.get('kind') == 'CXXOperatorCallExpr' and callee(y) and callee(y)[0] == 'fn' and callee(y)[1].get('name') == 'operator()' \
+                    and depth < 2:
+                for t in ctx.G.resolve_decl(callee(y)[1]):
+                    if t in ctx.G.defs and id(ctx.G.defs[t][1]) not in seen:
+                        lf = ctx.G.defs[t][1]
+                        seen.add(id(lf))
+                        from ..expr import Keys as _K
+                        lk = _K(ctx.G.defs[t][0])
+                        for z in walk(lf):
+                            if z.get('kind') in ('BinaryOperator', 'CompoundAssignOperator', 'UnaryOperator'):
+                                for lv in written_lvalues(z):
+                                    if lk.key(lv) == mk:
+                                        return False
+                        if not scan(lf, depth + 1):
+                            return False
+        return True
+    return scan(loop)
+
+
 def classify(ctx, u, f, s, keys, fold):
     """Returns (idiom, detail, narrow) or (None, why, narrow)."""
     lp = loop_parts(s)
@@ -144,9 +176,12 @@ def classify(ctx, u, f, s, keys, fold):
         a, b = kids(c)
         for (v, bound, flip) in ((a, b, False), (b, a, True)):
             vx = peel(v)
-            if vx.get('kind') not in ('DeclRefExpr',):
+            member_counter = vx.get('kind') == 'MemberExpr' and kids(vx) and peel(kids(vx)[0], explicit=False).get('kind') == 'CXXThisExpr'
+            if vx.get('kind') not in ('DeclRefExpr',) and not member_counter:
                 continue
-            vk = keys.key(vx) if False else '%s#%s' % ((vx.get('referencedDecl') or {}).get('name'), (vx.get('referencedDecl') or {}).get('id'))
+            if member_counter and not _member_untouched_by_calls(ctx, u, f, s, vx, keys):
+                continue            # a call in the loop may write the member that counts
+            vk = keys.key(vx) if member_counter else '%s#%s' % ((vx.get('referencedDecl') or {}).get('name'), (vx.get('referencedDecl') or {}).get('id'))
             steps = [(wk, x) for (wk, x) in ws if wk == vk or wk == keys.key(vx)]
             if not steps:
                 continue
